@@ -51,6 +51,7 @@ class Report:
         self.samples = []
         self.canaries = {"expected": 0, "killed": 0, "names": []}
         self.encoding_validations = 0
+        self.validation_items = []
         self.extra = {}
         self.crosshair = []
         self.cvc5 = {"rechecked": 0, "agree": 0}
@@ -74,6 +75,8 @@ class Report:
             return
         for f in res.failures:
             self.candidates.append({"scenario": name, "params": _jsonable(params or {}), **f})
+        for w in getattr(res, "validations", []) or []:
+            self.validation_items.append({"scenario": name, "params": _jsonable(params or {}), "witness": w})
         for lab in res.inconclusive:
             self.inconclusive.append(f"{name}: solver unknown on obligation {lab}")
         for b in res.bound_hits:
@@ -116,6 +119,66 @@ def match_known(pid, cand, known):
     return None
 
 
+def _validate_main(mod, items):
+    """Replay clean-path witnesses on the real code: every obligation the symbolic run proved on that path must
+    hold for the witness.  Prints one JSON line."""
+    from .symx import Replay, ReplayMismatch
+
+    out = []
+    for it in items:
+        fn = mod.SCENARIOS[it["scenario"].split("[")[0]]
+        V = Replay(it["witness"])
+        try:
+            fn(V, **it.get("params", {}))
+        except ReplayMismatch as ex:
+            out.append({"scenario": it["scenario"], "status": "skipped", "why": f"path not followed: {ex}"[:160]})
+            continue
+        except Exception as ex:  # noqa: BLE001
+            out.append({"scenario": it["scenario"], "status": "skipped", "why": f"{type(ex).__name__}: {ex}"[:160]})
+            continue
+        proved = set(it["witness"].get("labels") or [])
+        bad = sorted({l for l in V.failed if l in proved})
+        out.append({"scenario": it["scenario"], "status": "disagree" if bad else "agree", "failed": bad, "realized": bool(it["witness"].get("realized"))})
+    print("VALIDATION-JSON " + json.dumps(out))
+    return 0
+
+
+def run_validations(rep, timeout=240):
+    """Encoding validation: witnesses of clean symbolic paths, replayed against the unpatched real code."""
+    items = rep.validation_items
+    if not items:
+        return
+    import tempfile
+
+    with tempfile.NamedTemporaryFile("w", suffix=".json", delete=False) as fh:
+        json.dump(items, fh)
+    env = dict(os.environ)
+    env["PYTHONDONTWRITEBYTECODE"] = "1"
+    env["QVERIF_MODE"] = "replay"
+    res = []
+    try:
+        p = subprocess.run([PY, "-m", "qverif.main", rep.pid, "--validate", fh.name], cwd=ROOT, env=env, capture_output=True, text=True, timeout=timeout * symx_slack())
+        for line in p.stdout.splitlines():
+            if line.startswith("VALIDATION-JSON "):
+                res = json.loads(line[len("VALIDATION-JSON "):])
+    except subprocess.TimeoutExpired:
+        res = []
+    finally:
+        os.unlink(fh.name)
+    agree = [r for r in res if r["status"] == "agree"]
+    dis = [r for r in res if r["status"] == "disagree"]
+    rep.encoding_validations += len(agree)
+    rep.extra["path_validation"] = {"clean paths replayed on the real code": len(res), "agree": len(agree), "agree with all uninterpreted functions pinned to true values": sum(1 for r in agree if r.get("realized")), "skipped": sum(1 for r in res if r["status"] == "skipped"), "disagree": [f"{r['scenario']}: {r['failed']}" for r in dis][:10]}
+    for r in dis:
+        msg = f"path validation: {r['scenario']}: obligation(s) {r['failed']} proved symbolically fail on the real code for the path's own witness"
+        if os.environ.get("QVERIF_STRICT_VALIDATION"):
+            rep.harness_errors.append(msg)
+        else:
+            # recorded in the evidence; not a verdict: the witness may sit on a decision boundary where exact
+            # reals and floats legitimately differ
+            print("NOTE " + msg)
+
+
 def run_replay_file(pid, path, timeout=300):
     env = dict(os.environ)
     env["PYTHONDONTWRITEBYTECODE"] = "1"
@@ -126,6 +189,10 @@ def run_replay_file(pid, path, timeout=300):
 
 def finish(rep: Report, max_replays_per_sig=4):
     known = load_known()
+    try:
+        run_validations(rep)
+    except Exception as ex:  # noqa: BLE001
+        rep.extra["path_validation"] = {"error": f"{type(ex).__name__}: {ex}"}
     evdir = os.environ.get("QVERIF_EVIDENCE_DIR") or os.path.join(ROOT, "evidence")
     os.makedirs(evdir, exist_ok=True)
     rdir = os.path.join(ROOT, "replays", rep.pid)
@@ -301,6 +368,7 @@ def main(argv=None):
     ap.add_argument("pid")
     ap.add_argument("--tier", default=os.environ.get("VERIF_TIER", "quick"))
     ap.add_argument("--replay")
+    ap.add_argument("--validate", help="file with clean-path witnesses to be replayed on the real code (internal)")
     ap.add_argument("--quiet", action="store_true")
     ap.add_argument("--only", default=None, help="regex over scenario names (debugging; evidence still written)")
     a = ap.parse_args(argv)
@@ -310,6 +378,8 @@ def main(argv=None):
     sys.dont_write_bytecode = True
     sys.set_int_max_str_digits(0)
     mod = importlib.import_module(f"qverif.props.{pid.lower()}")
+    if a.validate:
+        return _validate_main(mod, json.load(open(a.validate)))
     if a.replay:
         data = json.load(open(a.replay))
         try:
@@ -402,6 +472,7 @@ def run_plan(rep, plan, scenarios, opts, workers=None, canaries=()):
     limit = float(opts.get("scenario_wall_s", 240 if rep.tier == "quick" else 1500))
     opts = dict(opts)
     opts.setdefault("deadline_s", limit * 0.8)
+    opts.setdefault("validate_paths", 1 if rep.tier == "quick" else 3)  # per scenario: clean paths whose witness is replayed on the real code
     if rep.tier == "thorough":
         opts.setdefault("cvc5_recheck", 25)  # per scenario: z3 `unsat` verdicts re-decided by cvc5
     results = [None] * len(items)
